@@ -38,7 +38,7 @@ PROFILES = [
     ("potential", "maxwell", ("electric_field", "magnetic_field")),
 ]
 
-GRID_FAMILIES = ["tetrahedron", "octahedron", "cube", "screen2", "lshape", "torus", "fan", "two_tetrahedra", "screen1"]
+GRID_FAMILIES = ["tetrahedron", "octahedron", "cube", "screen2", "lshape", "torus", "fan", "two_tetrahedra", "screen1", "pinched", "moebius"]
 SECOND_GRID = ["tetrahedron", "octahedron", "screen1", "lshape"]
 
 
